@@ -11,13 +11,20 @@ Model: `Model/Frame.lean` (follows the Rust text of the four copies c4, c5, b4, 
 loops `Decoder::decode`/`Framed`, `Network::{read, read_bytes, readv}`); independent statement of
 the MQTT framing rules: `Model/FrameSpec.lean`. Every theorem below holds for every copy `c`,
 every limit `max` (`none` = c5's `Option<u32>::None`), every byte list and every body reader
-`body`; the body readers themselves belong to C04. Two clauses fail on the as-is code and are
-therefore stated as witness + `_partial`:
-  * "never panics": b5 `read_mut` reaches `unreachable!()` for CONNACK / UNSUBACK frames;
-  * "asks for more bytes only while the frame is incomplete" and, as a consequence, chunking
-    independence: the v5 body readers (c5, b5) can return `InsufficientBytes` for a complete frame
-    (`length()` on a property length cut off by the end of the frame), which every loop takes for
-    a wait although the frame is already gone. The exact trigger is `¬ Honest body`.
+`body`; the body readers themselves belong to C04.
+
+One hypothesis remains on some theorems: `Guarded c body` = the copy seals a body reader's
+`InsufficientBytes` into `MalformedPacket` (c5, b5 since 5359110: `sealed c = true`, no condition on
+the body reader at all — see the `_v5` corollaries) or the body reader never answers
+`InsufficientBytes` (`Honest body`). It is genuinely needed for c4 / b4: their `read`/`read_mut`
+propagate the body reader's error unchanged, so a v4 body reader that answered `InsufficientBytes`
+for a complete frame would be taken for a wait after the frame is gone
+(`unsealed_copy_needs_honest_body`). The real v4 readers never do (they do not call `length()`); that
+is a fact about the unmodelled body readers, watched by the correspondence (monitor
+`needmore-on-complete-frame`), not a defect of the framing layer.
+Repaired since the first version of this file (then stated as witness + `_partial`, now proved at
+full strength): b5 `unreachable!()` on CONNACK / UNSUBACK (c0aab5e) → `decode1_never_panics`;
+v5 wait on a complete frame and the resulting chunking dependence (5359110) → `_v5` theorems.
 Totality ("either a packet, an error, or a wait") is by construction: `decode1` is a total function
 into `Step`; for the Rust code it is decided by the correspondence run under `catch_unwind`.
 -/
@@ -80,19 +87,26 @@ theorem needMore_never_overasks {bs : ByteList} {n : Nat}
     ∃ m, decode1 c body max (bs ++ x) = .needMore m :=
   needMore_lower_bound h x hx
 
-/-- C05.2d (full strength fails on the as-is v5 copies, see the witness below) with a body reader
-    that never answers `InsufficientBytes`, a complete frame is never answered with a wait of
-    either kind. -/
-theorem no_wait_on_complete_frame_partial (hb : Honest body) {bs : ByteList}
+/-- C05.2d ("asks for more bytes only while the declared frame is incomplete", whole decoder): a
+    complete frame is never answered with a wait of either kind — neither by the framing layer
+    nor by an `InsufficientBytes` leaking out of the body reader. -/
+theorem no_wait_on_complete_frame (hg : Guarded c body) {bs : ByteList}
     (hc : FrameComplete bs) :
     (∀ n, decode1 c body max bs ≠ .needMore n) ∧
     (∀ n rest, decode1 c body max bs ≠ .swallowed n rest) := by
-  refine ⟨?_, fun n rest => honest_not_swallowed hb max bs n rest⟩
+  refine ⟨?_, fun n rest => guarded_not_swallowed hg max bs n rest⟩
   intro n hn
   obtain ⟨h, r, hs, hl⟩ := hc
   rcases (decode1_needMore_iff c body max bs n).mp hn with ⟨h1, _⟩ | ⟨h', r', h1, _, h3, _⟩
   · rw [hs] at h1; simp at h1
   · rw [hs] at h1; simp at h1; omega
+
+/-- C05.2d for the v5 copies, unconditionally: whatever the body reader answers. -/
+theorem no_wait_on_complete_frame_v5 (hs : sealed c = true) {bs : ByteList}
+    (hc : FrameComplete bs) :
+    (∀ n, decode1 c body max bs ≠ .needMore n) ∧
+    (∀ n rest, decode1 c body max bs ≠ .swallowed n rest) :=
+  no_wait_on_complete_frame c body max (Or.inl hs) hc
 
 /-- C05.3 ("never accepts a frame whose declared length exceeds the configured maximum"): as soon
     as the fixed header is complete and declares more than `max`, the answer is
@@ -122,7 +136,7 @@ theorem decode1_tooLarge_iff (bs : ByteList) :
         simpa [exceeds] using he
     · rw [h2] at h; simp at h
     · rw [h2] at h; unfold deliver fromBody at h
-      split at h <;> (try split at h) <;> simp at h
+      split at h <;> (try split at h) <;> (try split at h) <;> simp at h
   · exact decode1_rejects_oversize c body max
 
 /-- C05.4 (prefix stability) a packet stays the same packet when more bytes follow … -/
@@ -140,36 +154,43 @@ theorem decode1_error_stable {bs : ByteList} {e : ErrKind} (x : ByteList)
 
 /-- C05.5a ("yields the same packet sequence however the bytes were chunked", client): for every
     chunking, `Framed`'s loop around `Codec::decode`, run to end of stream, yields the packets of
-    the concatenation, the same first error, the same kind of end. Needs an honest body reader. -/
-theorem stream_chunking_independent_client_partial (hb : Honest body) (chunks : List ByteList) :
+    the concatenation, the same first error, the same kind of end. -/
+theorem stream_chunking_independent_client (hg : Guarded c body) (chunks : List ByteList) :
     codecLoop c body max chunks = decodeStream c body max chunks.flatten :=
-  codecLoop_eq c body max hb chunks
+  codecLoop_eq c body max hg chunks
 
 /-- C05.5b (broker) the same for `Network::read`/`read_bytes`/`readv` as driven by
     `RemoteLink::start`, for every chunking into non-empty socket reads and every
     `max_connection_buffer_len`. -/
-theorem stream_chunking_independent_broker_partial (hb : Honest body) (k : Nat)
+theorem stream_chunking_independent_broker (hg : Guarded c body) (k : Nat)
     (chunks : List ByteList) (hne : ∀ ch ∈ chunks, ch ≠ []) :
     netLoop c body max k chunks = decodeStream c body max chunks.flatten :=
-  netLoop_eq c body max k hb chunks hne
+  netLoop_eq c body max k hg chunks hne
+
+/-- C05.5a/b for the v5 copies, unconditionally (every body reader). -/
+theorem stream_chunking_independent_v5 (hs : sealed c = true) (k : Nat) (chunks : List ByteList)
+    (hne : ∀ ch ∈ chunks, ch ≠ []) :
+    codecLoop c body max chunks = decodeStream c body max chunks.flatten ∧
+    netLoop c body max k chunks = decodeStream c body max chunks.flatten :=
+  ⟨codecLoop_eq c body max (Or.inl hs) chunks, netLoop_eq c body max k (Or.inl hs) chunks hne⟩
 
 /-- C05.5c hence two chunkings of the same bytes cannot be told apart, on either side. -/
-theorem any_two_chunkings_agree_partial (hb : Honest body) (k₁ k₂ : Nat)
+theorem any_two_chunkings_agree (hg : Guarded c body) (k₁ k₂ : Nat)
     (cs₁ cs₂ : List ByteList) (h : cs₁.flatten = cs₂.flatten)
     (h₁ : ∀ ch ∈ cs₁, ch ≠ []) (h₂ : ∀ ch ∈ cs₂, ch ≠ []) :
     codecLoop c body max cs₁ = codecLoop c body max cs₂ ∧
     netLoop c body max k₁ cs₁ = netLoop c body max k₂ cs₂ := by
-  rw [codecLoop_eq c body max hb, codecLoop_eq c body max hb, netLoop_eq c body max k₁ hb _ h₁,
-    netLoop_eq c body max k₂ hb _ h₂, h]
+  rw [codecLoop_eq c body max hg, codecLoop_eq c body max hg, netLoop_eq c body max k₁ hg _ h₁,
+    netLoop_eq c body max k₂ hg _ h₂, h]
   exact ⟨rfl, rfl⟩
 
 /-- C05.5e `readv`'s `max_connection_buffer_len` cut only moves batch boundaries: the batches the
     broker link forms from a buffered burst, concatenated, are the frames of the burst, and the
     run ends the same way. -/
-theorem readv_cut_preserves_sequence_partial (hb : Honest body) (k : Nat) (buf : ByteList) :
+theorem readv_cut_preserves_sequence (hg : Guarded c body) (k : Nat) (buf : ByteList) :
     ((linkBatches c body max k (buf.length + 1) buf).1.flatten,
       (linkBatches c body max k (buf.length + 1) buf).2) = decodeAll c body max buf :=
-  linkBatches_flatten c body max k hb _ buf (Nat.lt_succ_self _)
+  linkBatches_flatten c body max k hg _ buf (Nat.lt_succ_self _)
 
 /-- C05.5f the client's `readb` batching (at most `max_readb_count - 1` = 9 packets per call, not
     the 10 the field name suggests) hands the ready packets on in order, none lost or duplicated. -/
@@ -178,69 +199,42 @@ theorem readb_batches_preserve_sequence (m : Nat) (ready : List Pkt) :
     ∀ b ∈ readbBatches m (ready.length + 1) ready, b.length ≤ Nat.max (m - 1) 1 :=
   ⟨readbBatches_flatten m _ ready (Nat.lt_succ_self _), readbBatches_bound m _ ready⟩
 
-/-- C05.7a ("never panics", framing layer) only the b5 dispatch can panic … -/
-theorem decode1_no_panic_partial (hc : c ≠ .b5) (bs rest : ByteList) :
-    decode1 c body max bs ≠ .panic rest := by
+/-- C05.7 ("never panics", framing and dispatch layer) no copy, no limit, no input and no body
+    reader lead into an `unreachable!()` arm. (b5 did for CONNACK / UNSUBACK until c0aab5e.) For
+    the Rust code as a whole — body readers included — "never panics" is decided by the
+    correspondence under `catch_unwind`. -/
+theorem decode1_never_panics (bs rest : ByteList) : decode1 c body max bs ≠ .panic rest := by
   rcases decode1_cases c body max bs with ⟨n, _, h2⟩ | ⟨r, _, h2⟩ | ⟨_, h2⟩ | ⟨fh, _, h2⟩
   · rw [h2]; simp
   · rw [h2]; simp
   · rw [h2]; simp
-  · rw [h2]
-    intro hp
-    exact hc (dispatch_unreachable (deliver_panic hp)).1
-
-/-- C05.7a' … exactly on complete, within-limit CONNACK (2) / UNSUBACK (11) frames with a body. -/
-theorem b5_panics_iff (bs rest : ByteList) :
-    decode1 .b5 body max bs = .panic rest ↔
-      ∃ fh, check max bs = .ok fh ∧ (fh.typeNibble = 2 ∨ fh.typeNibble = 11) ∧
-        fh.remainingLen ≠ 0 ∧ rest = bs.drop fh.frameLen := by
-  constructor
-  · intro h
-    rcases decode1_cases .b5 body max bs with ⟨n, _, h2⟩ | ⟨r, _, h2⟩ | ⟨_, h2⟩ | ⟨fh, h1, h2⟩
-    · rw [h2] at h; simp at h
-    · rw [h2] at h; simp at h
-    · rw [h2] at h; simp at h
-    · rw [h2] at h
-      have hd := dispatch_unreachable (deliver_panic h)
-      exact ⟨fh, h1, hd.2.1, hd.2.2, (deliver_panic_rest h).symm⟩
-  · rintro ⟨fh, h1, h2, h3, h4⟩
-    unfold decode1; rw [h1]; simp only
-    have : dispatch .b5 fh.typeNibble fh.remainingLen = .unreachable := by
-      unfold dispatch; rcases h2 with h | h <;> simp [h, h3]
-    unfold deliver; rw [this, h4]
+  · rw [h2]; exact deliver_ne_panic _ _ _ _ _ _
 
 end
 
-/-- C05.7b … and it does, whatever the body reader: broker `V5::read_mut` on the 4-byte CONNACK
-    `20 02 00 00` (and UNSUBACK `B0 02 00 01`) reaches `unreachable!()`. Replayed on the real code
-    by `vh frame` (`dec b5 1024 20020000 => X 4`). -/
-theorem b5_panics_witness {Pkt ε : Type} (body : FixedHeader → ByteList → Except (BodyErr ε) Pkt) :
-    decode1 .b5 body (some 1024) [0x20, 0x02, 0x00, 0x00] = .panic [] ∧
-    decode1 .b5 body (some 1024) [0xB0, 0x02, 0x00, 0x01] = .panic [] := by
-  constructor <;> rfl
+/-- C05.8 the three packets that consist of a fixed header only (`C0 00`, `D0 00`, `E0 00`) are
+    accepted by every copy's dispatch without consulting a body reader (c5 rejected `E0 00` with
+    `PayloadRequired` until 86cba48). The correspondence reports an implementation that rejects one
+    of them as `wrong-answer`. -/
+theorem canonical_bodiless_accepted (c : Copy) (b0 : UInt8) (h : canonicalBodiless b0 = true) :
+    dispatch c (b0.toNat / 16) (b0.toNat % 16) 0 = .accept := by
+  have : (b0 = 0xC0 ∨ b0 = 0xD0) ∨ b0 = 0xE0 := by
+    simpa [canonicalBodiless] using h
+  rcases this with (h | h) | h <;> subst h <;> cases c <;> decide
 
-/-- C05.2e witness that the full-strength "waits only while incomplete" fails once a body reader
-    answers `InsufficientBytes` (as the v5 DISCONNECT reader does for `E0 01 00`: reason code, then
-    `length()` on an empty rest): the frame is complete, it is removed from the buffer, and the
-    caller is told to wait for 1 more byte. Replayed: `dec c5 none e00100 => N 1 3`. -/
-theorem wait_on_complete_frame_witness :
+/-- why `Guarded` cannot be dropped for the v4 copies (a statement about the model's parameter,
+    not about a defect): c4 / b4 hand a body reader's `InsufficientBytes` on unchanged, so with a
+    body reader that answered it the complete frame `30 02 00 00` would be removed and answered
+    with a wait; the sealed v5 copies report it as malformed. -/
+theorem unsealed_copy_needs_honest_body :
     let body : FixedHeader → ByteList → Except (BodyErr Unit) Unit :=
       fun _ _ => .error (.insufficient 1)
-    FrameComplete [0xE0, 0x01, 0x00] ∧
-    decode1 .c5 body none [0xE0, 0x01, 0x00] = .swallowed 1 [] ∧
-    decode1 .b5 body (some 100) [0xE0, 0x01, 0x00] = .swallowed 1 [] := by
-  refine ⟨⟨2, 1, by decide, by decide⟩, rfl, rfl⟩
-
-/-- C05.5d witness that chunking independence fails with such a body reader (broker loop): the
-    malformed DISCONNECT followed by a PINGREQ in one read ends in `ConnectionReset` without ever
-    delivering the PINGREQ (`read_bytes(1)` waits although a complete frame is buffered); split
-    into two reads the PINGREQ is delivered. Replayed: `stream b5 … e00100c000` vs `e00100 c000`. -/
-theorem stream_chunking_dependent_witness :
-    let body : FixedHeader → ByteList → Except (BodyErr Unit) Nat :=
-      fun fh fr => if fh.typeNibble = 14 then .error (.insufficient 1) else .ok fr.length
-    netLoop .b5 body (some 100) 10 [[0xE0, 0x01, 0x00, 0xC0, 0x00]] = ([], .eofPartial) ∧
-    netLoop .b5 body (some 100) 10 [[0xE0, 0x01, 0x00], [0xC0, 0x00]] = ([2], .eofClean) := by
-  constructor <;> decide
+    FrameComplete [0x30, 0x02, 0x00, 0x00] ∧
+    decode1 .c4 body (some 100) [0x30, 0x02, 0x00, 0x00] = .swallowed 1 [] ∧
+    decode1 .b4 body (some 100) [0x30, 0x02, 0x00, 0x00] = .swallowed 1 [] ∧
+    decode1 .c5 body none [0x30, 0x02, 0x00, 0x00] = .malformed [] ∧
+    decode1 .b5 body (some 100) [0x30, 0x02, 0x00, 0x00] = .malformed [] := by
+  refine ⟨⟨2, 2, by decide, by decide⟩, rfl, rfl, rfl, rfl⟩
 
 /-! ### C05.6 the variable byte integer, over the constants regenerated from the four sources -/
 
@@ -312,6 +306,23 @@ theorem varint_decoder_is_spec (bs : List UInt8) : VarInt.length bs = lengthSpec
 def exBody : FixedHeader → ByteList → Except (BodyErr Unit) Nat := fun _ fr => .ok fr.length
 
 example : Honest exBody := by intro fh fr n; simp [exBody]
+example : sealed .c5 = true ∧ sealed .b5 = true ∧ sealed .c4 = false ∧ sealed .b4 = false := by decide
+example : Guarded .c4 exBody := Or.inr (by intro fh fr n; simp [exBody])
+/-- a body reader that leaks `InsufficientBytes` for DISCONNECT, as the v5 reader does for `E0 01 00` -/
+def leakyBody : FixedHeader → ByteList → Except (BodyErr Unit) Nat :=
+  fun fh fr => if fh.typeNibble = 14 then .error (.insufficient 1) else .ok fr.length
+-- regression inputs of the repaired defects: CONNACK / UNSUBACK on b5 are decoded, a leaking body
+-- reader's frame is a malformed packet on the v5 copies, in one read or two, and `E0 00` reaches
+-- the c5 DISCONNECT reader
+example : decode1 .b5 exBody (some 1024) [0x20, 0x02, 0x00, 0x00] = .packet 4 [] ∧
+    decode1 .b5 exBody (some 1024) [0xB0, 0x02, 0x00, 0x01] = .packet 4 [] := by decide
+example : decode1 .c5 leakyBody none [0xE0, 0x01, 0x00] = .malformed [] ∧
+    decode1 .b5 leakyBody (some 100) [0xE0, 0x01, 0x00] = .malformed [] := by decide
+example : netLoop .b5 leakyBody (some 100) 10 [[0xE0, 0x01, 0x00, 0xC0, 0x00]] = ([], .error .malformed) ∧
+    netLoop .b5 leakyBody (some 100) 10 [[0xE0, 0x01, 0x00], [0xC0, 0x00]] = ([], .error .malformed) := by
+  decide
+example : decode1 .c5 exBody none [0xE0, 0x00] = .packet 2 [] ∧
+    decode1 .c5 exBody none [0xE1, 0x00] = .malformed [] ∧ decode1 .b5 exBody none [0xE1, 0x00] = .packet 2 [] := by decide
 -- a PUBLISH `30 03 00 01 61`... (5 bytes) followed by the start of the next frame
 example : decode1 .c4 exBody (some 100) [0x30, 0x03, 0x00, 0x01, 0x61, 0xC0] = .packet 5 [0xC0] := by
   decide
